@@ -255,8 +255,10 @@ impl FieldType {
     pub fn validate(&self, value: &FieldValue) -> Result<(), SchemaError> {
         // The complexity budget covers the whole tree in one iterative pass,
         // so it only needs to run once at the top level; the recursive
-        // structural checks below use `validate_inner`.
-        value.validate_complexity()?;
+        // structural checks below use `validate_inner`. The pass follows the
+        // declared type so that a `Vector` in an untyped position is counted
+        // as the array it will be read back as.
+        value.validate_complexity_as(Some(self), FieldValueBudget::default())?;
         self.validate_inner(value)
     }
 
@@ -1410,13 +1412,51 @@ impl FieldValue {
 
     /// Validates this value against an explicit structural complexity budget.
     pub fn validate_complexity_with(&self, budget: FieldValueBudget) -> Result<(), SchemaError> {
+        self.validate_complexity_as(None, budget)
+    }
+
+    /// Budget pass behind [`FieldValue::validate_complexity_with`] and
+    /// [`FieldType::validate`]; `declared` is the type this value is
+    /// validated against, if any.
+    ///
+    /// The budget has to hold for the shape the value is *read back* as, or a
+    /// value is accepted on write and then rejected on every read. The only
+    /// variant whose generic read-back is larger than itself is
+    /// [`FieldValue::Vector`]: it is a single node, but it is stored as an
+    /// array of bit patterns, and only a position declared
+    /// [`FieldType::Vector`] folds that array back into one node
+    /// ([`FieldType::normalize`]) before the budget is applied on read. In a
+    /// position that declares no type — an element of `Array([])`, a value of
+    /// `Map({})`, anything below a `Json` field that is not yet a
+    /// [`FieldValue::Json`] — a `Vector` is therefore budgeted as that array.
+    /// Without a declared type (`None`) every `Vector` is a single node.
+    fn validate_complexity_as(
+        &self,
+        declared: Option<&FieldType>,
+        budget: FieldValueBudget,
+    ) -> Result<(), SchemaError> {
+        /// What is known about the position a value sits in.
+        #[derive(Clone, Copy)]
+        enum Pos<'a> {
+            /// No type information at all (type-blind entry points).
+            Unknown,
+            /// The schema declares this type here.
+            Declared(&'a FieldType),
+            /// Below a type that declares nothing: read back generically.
+            Untyped,
+        }
+
         enum Item<'a> {
-            Field(&'a FieldValue, usize),
+            Field(&'a FieldValue, usize, Pos<'a>),
             Json(&'a Json, usize),
         }
 
         let mut nodes = 0usize;
-        let mut stack = vec![Item::Field(self, 0)];
+        let mut stack = vec![Item::Field(
+            self,
+            0,
+            declared.map_or(Pos::Unknown, Pos::Declared),
+        )];
 
         while let Some(item) = stack.pop() {
             nodes = nodes.saturating_add(1);
@@ -1428,7 +1468,7 @@ impl FieldValue {
             }
 
             let depth = match &item {
-                Item::Field(_, depth) | Item::Json(_, depth) => *depth,
+                Item::Field(_, depth, _) | Item::Json(_, depth) => *depth,
             };
             if depth > budget.max_depth {
                 return Err(SchemaError::FieldValue(format!(
@@ -1437,8 +1477,19 @@ impl FieldValue {
                 )));
             }
 
+            // `Option` wrapping is type-level nesting only.
+            let item = match item {
+                Item::Field(value, depth, Pos::Declared(mut ft)) => {
+                    while let FieldType::Option(inner) = ft {
+                        ft = inner;
+                    }
+                    Item::Field(value, depth, Pos::Declared(ft))
+                }
+                item => item,
+            };
+
             match item {
-                Item::Field(FieldValue::Array(values), depth) => {
+                Item::Field(FieldValue::Array(values), depth, pos) => {
                     if values.len() > budget.max_array_len {
                         return Err(SchemaError::FieldValue(format!(
                             "FieldValue array length {} exceeds maximum {}",
@@ -1446,9 +1497,21 @@ impl FieldValue {
                             budget.max_array_len
                         )));
                     }
-                    stack.extend(values.iter().map(|value| Item::Field(value, depth + 1)));
+                    stack.extend(values.iter().enumerate().map(|(i, value)| {
+                        let pos = match pos {
+                            Pos::Declared(FieldType::Array(types)) => match types.len() {
+                                0 => Pos::Untyped,
+                                1 => Pos::Declared(&types[0]),
+                                _ => types.get(i).map_or(Pos::Unknown, Pos::Declared),
+                            },
+                            Pos::Declared(FieldType::Json) | Pos::Untyped => Pos::Untyped,
+                            // A mismatch is reported by the structural checks.
+                            _ => Pos::Unknown,
+                        };
+                        Item::Field(value, depth + 1, pos)
+                    }));
                 }
-                Item::Field(FieldValue::Map(values), depth) => {
+                Item::Field(FieldValue::Map(values), depth, pos) => {
                     if values.len() > budget.max_map_entries {
                         return Err(SchemaError::FieldValue(format!(
                             "FieldValue map entries {} exceed maximum {}",
@@ -1456,12 +1519,50 @@ impl FieldValue {
                             budget.max_map_entries
                         )));
                     }
-                    stack.extend(values.values().map(|value| Item::Field(value, depth + 1)));
+                    stack.extend(values.iter().map(|(key, value)| {
+                        let pos = match pos {
+                            Pos::Declared(FieldType::Map(types)) if types.is_empty() => {
+                                Pos::Untyped
+                            }
+                            Pos::Declared(FieldType::Map(types)) => match as_wildcard_map(types) {
+                                Some((_, ft)) => Pos::Declared(ft),
+                                None => types.get(key).map_or(Pos::Unknown, Pos::Declared),
+                            },
+                            Pos::Declared(FieldType::Json) | Pos::Untyped => Pos::Untyped,
+                            // A mismatch is reported by the structural checks.
+                            _ => Pos::Unknown,
+                        };
+                        Item::Field(value, depth + 1, pos)
+                    }));
                 }
-                Item::Field(FieldValue::Json(value), depth) => {
+                Item::Field(FieldValue::Json(value), depth, _) => {
                     stack.push(Item::Json(value, depth + 1));
                 }
-                Item::Field(_, _) => {}
+                Item::Field(FieldValue::Vector(values), depth, Pos::Untyped) => {
+                    // Read back as `Array([U64(bits), ...])`: same limits and
+                    // the same node count as that array.
+                    if values.len() > budget.max_array_len {
+                        return Err(SchemaError::FieldValue(format!(
+                            "FieldValue vector length {} in an untyped position exceeds maximum array length {}",
+                            values.len(),
+                            budget.max_array_len
+                        )));
+                    }
+                    if !values.is_empty() && depth + 1 > budget.max_depth {
+                        return Err(SchemaError::FieldValue(format!(
+                            "FieldValue exceeds maximum depth {}",
+                            budget.max_depth
+                        )));
+                    }
+                    nodes = nodes.saturating_add(values.len());
+                    if nodes > budget.max_nodes {
+                        return Err(SchemaError::FieldValue(format!(
+                            "FieldValue exceeds maximum node count {}",
+                            budget.max_nodes
+                        )));
+                    }
+                }
+                Item::Field(_, _, _) => {}
                 Item::Json(Json::Array(values), depth) => {
                     if values.len() > budget.max_array_len {
                         return Err(SchemaError::FieldValue(format!(
